@@ -397,7 +397,7 @@ def builtin_call(E, name, node, st, fr):
             pos = z3.Select(E.h(st, ("itpos",)), v.z)
             seq = z3.Select(E.h(st, ("list", et)), src)
             E.raise_edge(fr, st, pos >= so.Len(seq), "StopIteration", f"L{node.lineno}")
-            E.hset(st, ("itpos",), z3.Store(E.h(st, ("itpos",)), v.z, pos + 1))
+            E.hset(st, ("itpos",), z3.Store(E.h(st, ("itpos",)), v.z, pos + 1), v.z)
             return V(et, so.At(seq, pos))
         if v.t.kind == "ref":
             q = "next_of:" + v.t.args[0]
@@ -789,7 +789,7 @@ def method_call(E, recv, meth, args, kwargs, st, fr, node):
         if meth == "add":
             key = ("set", kt)
             arr = E.set_arr(st, recv)
-            E.hset(st, key, z3.Store(E.h(st, key), recv.z, z3.Store(arr, E.coerce(args[0], kt).z, True)))
+            E.hset(st, key, z3.Store(E.h(st, key), recv.z, z3.Store(arr, E.coerce(args[0], kt).z, True)), recv.z)
             return V(NONE, ty.null)
     if k == "str":
         if meth == "strip":
